@@ -360,7 +360,7 @@ func playHand(o *Out, r *Rng, cfgLine string, probeP, viewP, hopP, malP float64)
 			h.noise(r.Intn(5))
 		}
 		if r.Chance(0.05) {
-			h.query(r.Intn(4))
+			h.query(r.Intn(5))
 		}
 		if r.Chance(hopP) {
 			switch {
